@@ -75,7 +75,7 @@ def main(argv=None):
             (out["known"] if kf else out["violations"]).append((f, kf, case))
 
     # ---- L1: model-check the specification ------------------------------------------------
-    for inst in plan.get("l1", lambda tier: [])(tier):
+    for inst in plan.get("l1", lambda tier, seed=0: [])(tier, seed):
         r = runner.model_check(inst, tier)
         cov["l1"].append({k: r[k] for k in ("family", "tier", "checked", "states", "distinct", "result", "wall_s")})
         cov["states"] += r["distinct"]
